@@ -8,7 +8,7 @@ LEVEL = "other"
 
 
 def run(rep, tier, seed):
-    proved_tier(rep, "C15", seed, expected_min_obligations=20)
+    proved_tier(rep, "C15", seed, expected_min_obligations=6)
     rep.assume("functools.reduce is a left fold; sorted(xs, key) is a permutation ordered by key; "
                "returns.Maybe.bind/map apply the function to the contained value (assumed library contracts)")
     try:
